@@ -51,6 +51,19 @@ FileMode File::getMode() {
     return mode;
 }
 
+bool File::isOpen() {
+    switch (mode) {
+        case FileMode::READ:
+            return ifile->is_open();
+        case FileMode::WRITE:
+        case FileMode::APPEND:
+            return ofile->is_open();
+        case FileMode::RANDOM:
+            return true;
+    }
+    return false;
+}
+
 bool File::eof() {
     if (mode != FileMode::READ) std::abort();
     return ifile->peek() == std::ifstream::traits_type::eof();
@@ -85,8 +98,10 @@ String File::read() {
     return line;
 }
 
-void File::write(const String &data) {
-    *ofile << data.value << "\n";
+bool File::write(const String &data) {
+    // flush so that a write the operating system rejects is seen here
+    *ofile << data.value << "\n" << std::flush;
+    return !ofile->fail();
 }
 
 bool File::seek(const Integer &address) {
@@ -116,7 +131,11 @@ void File::putRecord(DataHolder &data) {
 
 bool FileManager::createFile(const String &name, FileMode mode) {
     namespace fs = std::filesystem;
-    if (!fs::exists(fs::path(name.value))) {
+    std::error_code ec;
+    if (fs::is_directory(fs::path(name.value), ec)) return false;
+    bool exists = fs::exists(fs::path(name.value), ec);
+    if (ec) return false;
+    if (!exists) {
         if (mode == FileMode::RANDOM) {
             std::ofstream f(name.value, std::ios::out);
             f.close();
@@ -125,7 +144,9 @@ bool FileManager::createFile(const String &name, FileMode mode) {
             return false;
         }
     }
-    files.emplace_back(std::make_unique<File>(name, mode));
+    auto file = std::make_unique<File>(name, mode);
+    if (!file->isOpen()) return false;
+    files.emplace_back(std::move(file));
     return true;
 }
 
